@@ -46,6 +46,13 @@ Value& MemberCONCATExpression::value(Context& ctx) const
     /* when expression is null table, the value will be swapped with that given
      * as an argument; also the linked symbol must be upgraded to the new
      * type, calling ctx.storeVariable(symbol, value) */
+    /* a null table that has an element type is an empty table of that type:
+     * what is concatenated goes through the same checks as for any table
+     * (a table of tuples carries no declaration when null, it is left as is) */
+    if (val.isNull() && val.type().major() != Type::NO_TYPE && val.type().major() != Type::ROWTYPE
+            && !_exp->isVarName())
+      val.swap(Value(new Collection(val.type())).to_lvalue(val.lvalue()));
+
     if (val.isNull())
     {
       if (a0.type().level() > 0) /* null + tab */
